@@ -2175,6 +2175,39 @@ package apd
 //@   unreachable ret1: the default case of the switch over the four valid forms
 //@   exported
 //@   requires inv(d)
+//@ func (*Decimal).Scan
+//@   props C04 C06
+//@   exported
+//@   requires writable(d)
+//@   assigns d
+//@   ensures [wf] ret == nil ==> inv(d)
+//@ func (*NullDecimal).Scan
+//@   props C04 C06
+//@   exported
+//@   requires writable(nd)
+//@   assigns nd
+//@   ensures [wf] ret == nil && nd.Valid ==> inv(nd.Decimal)
+//@ global _Form_index[i]: 0 <= i && i <= 3 ==> _Form_index[i] <= _Form_index[i + 1] && _Form_index[i + 1] <= 29
+//@ func Form.String
+//@   props C04
+//@   pure
+//@ func Decimal.Value
+//@   props C04
+//@   exported
+//@   pure
+//@ func NullDecimal.Value
+//@   props C04
+//@   exported
+//@   pure
+//@ func writeMultiple
+//@   props C04
+//@   pure
+//@   sample count <= 1000
+//@   loop 1 decreases count
+//@ func (*Decimal).Format
+//@   props C04
+//@   exported
+//@   requires inv(d)
 //@ func fmtE
 //@   props C04
 //@   requires inv(d) && len(digits) >= 1
